@@ -21,7 +21,16 @@ RECOMMENDED = {"HS256", "RS256", "ES256"}
 REGISTERED = {"none", "HS256", "HS384", "HS512", "RS256", "RS384", "RS512", "ES256", "ES384", "ES512", "PS256", "PS384", "PS512",
               "EdDSA", "ES256K"}
 H, P, S = b"HDRSEG", b"PAYSEG", b"SIGSEG"
-PAYLOAD, SIGV = b"payload-octets", b"signature-octets"
+PAYLOAD = b"payload-octets"
+DIGEST = {"HS256": 32, "HS384": 48, "HS512": 64}
+
+
+def sigv(alg, tag=1):
+    """received signature octets of the length the named MAC produces (a MAC of another length can never compare equal)"""
+    return bytes((tag * 13 + i) % 256 for i in range(DIGEST.get(alg, 32) if isinstance(alg, str) else 32))
+
+
+SIGV = sigv("HS256")
 
 
 def allowed(alg, allow):
@@ -84,7 +93,7 @@ def run_compact(hdr, hdr_bad, p_empty, s_empty, vr, keyform, allow_i, use7797=Fa
     pseg = b"" if p_empty else P
     sseg = b"" if s_empty else S
     env.bind_b64(P, PAYLOAD)
-    env.bind_b64(S, SIGV)
+    env.bind_b64(S, sigv(hdr.get("alg")))
     token = H + b"." + pseg + b"." + sseg
     karg, resolve = keys_for(keyform)
     with env.installed():
@@ -117,7 +126,7 @@ def check_compact(env, obj, hdr, hdr_bad, allow_i, pseg, sseg, resolve, signed_p
     if key is None:
         return False
     want_msg = H + b"." + (pseg if signed_payload_octets is None else signed_payload_octets)
-    want_sig = SIGV if sseg else b""
+    want_sig = sigv(alg) if sseg else b""
     c = cmp_[0]
     mac = ice.mac_tag(HASHNAME[alg], key.raw_value, want_msg)
     if not ((c["a"] == want_sig and c["b"] == mac) or (c["b"] == want_sig and c["a"] == mac)):
@@ -298,7 +307,7 @@ def run_json(n, flattened, prot, alg_prot, kids, vrs, keyform, allow_i, with_pay
     hdrs = []
     for i in range(n):
         d = {"signature": "SIG%d" % i}
-        env.bind_b64(b"SIG%d" % i, b"sigv%d" % i)
+        env.bind_b64(b"SIG%d" % i, sigv("HS256" if i == 0 else "HS384", 2 + i))
         p, u = {}, {}
         (p if (prot[i] and alg_prot[i]) else u)["alg"] = "HS256" if i == 0 else "HS384"
         if kids[i] is not None:
@@ -356,7 +365,7 @@ def check_json(env, n, hdrs, allow_i, resolve, prot, payload_seg=P):
             return False
         seg = (b"PROT%d" % i) if prot[i] else b""
         mac = ice.mac_tag(HASHNAME[alg], key.raw_value, seg + b"." + payload_seg)
-        sig = b"sigv%d" % i
+        sig = sigv("HS256" if i == 0 else "HS384", 2 + i)
         if not ((c["a"] == sig and c["b"] == mac) or (c["b"] == sig and c["a"] == mac)):
             return False
     return True
